@@ -19,6 +19,7 @@ RULE = ("y in V^5 = {0,1,2,5}^5 (every tie pattern; {0,1,3}^5 for the exponentia
 ASSUMPTIONS = ["tolerance 1e-9 relative to max(1,|y|)", "parameters outside the dyadic alphabets are not covered",
                "known finding K1: the monotone clause fails for exponent 1/10 (documented blend is non-monotone)"]
 ANCHORS = {"rfa.py": [(240, 248), (404, 460), (272, 274), (485, 492), (614, 624)], "funfit.py": [(7, 196)]}
+FORMS_HARNESSES = "all"
 EXPLANATION = "output invariants evaluated on every element of a bounded input/configuration lattice"
 
 
